@@ -132,6 +132,86 @@ End Transpose.
 
 Arguments zip_cons {C}. Arguments zip_from {C}. Arguments zip_star {C}. Arguments head {C}. Arguments to_arrow_cols {C}.
 
+(* ---------- the frame as an object with state: repeated use of ONE DataFrame ----------
+   orso/dataframe.py: a DataFrame holds its rows either as a list or as a one-shot iterator (what from_arrow
+   returns, or a generator handed to the constructor).  materialize() (184-189) replaces the iterator by
+   list(iterator); rowcount (418-421), slice (245-253, hence head) materialize first.  to_arrow (converters
+   72-86) reaches the rows only through head() / rowcount, so it leaves the frame materialized.  The cursor
+   used by fetchone/fetchmany/fetchall is NOT modelled (it shares the iterator of a lazy frame). *)
+(* the calls made on the frame: DataFrame.arrow(size), .rowcount, .materialize() *)
+Inductive fop := OpArrow (size : option Z) | OpRowcount | OpMaterialize.
+
+Section Frame.
+Variable C : Type.                                   (* a cell *)
+Variable T : Type.                                   (* an Arrow table *)
+Variable process_table : T -> N -> list (list C).
+
+Inductive frame :=
+| FLazy (it : iter (list C) T)       (* self._rows is the rows iterator, not yet consumed *)
+| FList (rows : list (list C)).      (* self._rows is a list *)
+
+(* enough next() calls to exhaust the iterator: what is buffered plus what every pending table delivers *)
+Definition fuel_of (s : iter (list C) T) : nat :=
+  S (length (cur s) + length (concat (map (fun t => process_table t (bsz s)) (tabs s)))).
+
+(* list(self._rows) on the iterator *)
+Definition collect (s : iter (list C) T) : list (list C) := drain process_table (fuel_of s) s.
+
+Definition materialize (f : frame) : frame :=
+  match f with FLazy it => FList (collect it) | FList r => FList r end.
+
+(* self._rows once materialize() has run *)
+Definition frame_rows (f : frame) : list (list C) :=
+  match f with FLazy it => collect it | FList r => r end.
+
+(* `if dataset.rowcount == 0: [list() for each column] else list(zip( *dataset._rows))` *)
+Definition arrays (rows : list (list C)) (ncols : nat) : list (list C) :=
+  match rows with [] => repeat [] ncols | r :: rs => zip_star (r :: rs) end.
+
+(* to_arrow(self, size) on the frame object: the frame afterwards and the arrays given to Table.from_arrays *)
+Definition to_arrow_frame (f : frame) (ncols : nat) (size : option Z) : frame * list (list C) :=
+  match size with
+  | Some z =>
+      if (0 <=? z)%Z then
+        let f1 := materialize f in                                  (* head(size) -> slice(0, size): self.materialize() *)
+        let d := FList (firstn (Z.to_nat z) (frame_rows f1)) in     (* the new, list-backed frame *)
+        (f1, arrays (frame_rows (materialize d)) ncols)             (* d.rowcount, then zip( *d._rows) *)
+      else
+        let f1 := materialize f in (f1, arrays (frame_rows f1) ncols)
+  | None => let f1 := materialize f in (f1, arrays (frame_rows f1) ncols)   (* dataset.rowcount materializes self *)
+  end.
+
+Inductive fout := OutTable (cols : list (list C)) | OutCount (n : nat) | OutNone.
+
+Definition fstep (ncols : nat) (f : frame) (op : fop) : frame * fout :=
+  match op with
+  | OpArrow size => let '(f1, cols) := to_arrow_frame f ncols size in (f1, OutTable cols)
+  | OpRowcount => let f1 := materialize f in (f1, OutCount (length (frame_rows f1)))
+  | OpMaterialize => (materialize f, OutNone)
+  end.
+
+(* a sequence of calls on the same frame object: what each call returns *)
+Fixpoint frun (ncols : nat) (f : frame) (ops : list fop) : list fout :=
+  match ops with
+  | [] => []
+  | op :: r => let '(f1, o) := fstep ncols f op in o :: frun ncols f1 r
+  end.
+
+(* what the property promises for a frame holding the rows E, whatever was called before *)
+Definition expected_out (E : list (list C)) (ncols : nat) (op : fop) : fout :=
+  match op with
+  | OpArrow size => OutTable (to_arrow_cols E ncols size)
+  | OpRowcount => OutCount (length E)
+  | OpMaterialize => OutNone
+  end.
+
+End Frame.
+
+Arguments FLazy {C T}. Arguments FList {C T}. Arguments fuel_of {C T}. Arguments collect {C T}.
+Arguments materialize {C T}. Arguments frame_rows {C T}. Arguments arrays {C}. Arguments to_arrow_frame {C T}.
+Arguments OutTable {C}. Arguments OutCount {C}. Arguments OutNone {C}.
+Arguments fstep {C T}. Arguments frun {C T}. Arguments expected_out {C}.
+
 (* ====================================================================================== *)
 (* (b) column typing                                                                        *)
 (* ====================================================================================== *)
@@ -263,8 +343,26 @@ Definition from_arrow_type (mab : bool) (a : atype) : result (N * option N * opt
       else Ok (match py2orso nt with Some t => t | None => ty_VARCHAR end, None, None, None)
     end).
 
+(* ---------- FlatColumn.__init__, "validate decimal properties" (schema.py 202-208) ----------
+   For a DECIMAL column: `if self.precision is None: self.precision = getcontext().prec` (ctor_ctx_prec, probed
+   on every run), `if self.scale is None: self.scale = int(0.75 * self.precision)`.  A precision / scale that
+   was given is kept as it is.  Tied to the live constructor by the probe table ctor_dec_probes (Gen). *)
+Definition ctor_decimal (p s : option Z) : option Z * option Z :=
+  let p' := match p with Some v => v | None => ctor_ctx_prec end in
+  (Some p', Some (match s with Some v => v | None => Z.quot (3 * p') 4 end)).
+
+(* FlatColumn(name=, type=<member>, element_type=, precision=, scale=, nullable=): the attributes the object has *)
+Definition flat_column (nm : list N) (t : N) (e : option N) (p s : option Z) (nl : bool) : column :=
+  if (t =? ty_DECIMAL)%N then mkCol nm t e (fst (ctor_decimal p s)) (snd (ctor_decimal p s)) nl
+  else mkCol nm t e p s nl.
+
+(* the column object built from requested attributes (given as a record) *)
+Definition construct (r : column) : column :=
+  flat_column (cname r) (ctype r) (celem r) (cprec r) (cscale r) (cnullable r).
+
+(* FlatColumn.from_arrow ends in the FlatColumn(...) constructor *)
 Definition from_arrow_field (mab : bool) (f : afield) : result column :=
-  bind (from_arrow_type mab (ftype f)) (fun '(t, e, p, s) => Ok (mkCol (fname f) t e p s (fnullable f))).
+  bind (from_arrow_type mab (ftype f)) (fun '(t, e, p, s) => Ok (flat_column (fname f) t e p s (fnullable f))).
 
 (* ---------- schema-level converters ---------- *)
 Fixpoint mapM {A B : Type} (f : A -> result B) (l : list A) : result (list B) :=
@@ -459,9 +557,10 @@ Definition c11_check_roundtrip (c : roundtrip_case) : bool :=
   && match cols with Ok cs => list_eqb listN_eqb (map cname cs) names | Raise _ => true end.
 
 (* (column as constructed, observed arrow_field, observed FlatColumn.from_arrow of that field) *)
-Definition c11_show_o2a (c : column * result afield * result column) :=
-  let '(col, f, back) := c in
-  (arrow_field col, match f with Ok fl => from_arrow_field false fl | Raise e => Raise e end).
+Definition c11_show_o2a (c : option column * column * result afield * result column) :=
+  let '(req, col, f, back) := c in
+  (match req with Some r => Some (construct r) | None => None end,
+   arrow_field col, match f with Ok fl => from_arrow_field false fl | Raise e => Raise e end).
 
 (* the typing clause itself, on what the implementation returned: a roundtrippable column comes back with the
    same type, element type, precision, scale and name (nullability is the Arrow field's) *)
@@ -486,11 +585,19 @@ Fixpoint came_back_all (use_ids : bool) (cols : list (list N * column)) (fs : li
   | _, _, _ => false
   end.
 
-Definition c11_check_o2a (c : column * result afield * result column) : bool :=
-  let '(col, f, back) := c in
-  result_eqb afield_eqb (arrow_field col) f
+(* the column the constructor was ASKED for (None: not expressible) next to the column it built: the constructor
+   must build what the model says (a given precision / scale is kept), and the typing clause is applied to the
+   requested attributes as well as to the constructed ones *)
+Definition built_as_asked (req : option column) (col : column) : bool :=
+  match req with Some r => column_eqb (construct r) col | None => true end.
+
+Definition c11_check_o2a (c : option column * column * result afield * result column) : bool :=
+  let '(req, col, f, back) := c in
+  built_as_asked req col
+  && result_eqb afield_eqb (arrow_field col) f
   && match f with Ok fl => result_eqb column_eqb (from_arrow_field false fl) back | Raise _ => true end
-  && came_back col f back.
+  && came_back col f back
+  && match req with Some r => came_back (construct r) f back | None => true end.
 
 Definition c11_show_a2o (c : bool * afield * result column) :=
   let '(mab, f, col) := c in from_arrow_field mab f.
@@ -498,14 +605,23 @@ Definition c11_show_a2o (c : bool * afield * result column) :=
 Definition c11_check_a2o (c : bool * afield * result column) : bool :=
   let '(mab, f, col) := c in result_eqb column_eqb (from_arrow_field mab f) col.
 
-Definition schema_case : Type := bool * list (list N * column) * result (list afield) * result (list column).
+(* (use identities, requested attributes per column, (identity, column as constructed) per column, fields, columns back) *)
+Definition schema_case : Type := bool * list (option column) * list (list N * column) * result (list afield) * result (list column).
 
 Definition c11_show_schema (c : schema_case) :=
-  let '(ids, cols, fs, back) := c in
+  let '(ids, reqs, cols, fs, back) := c in
   (orso_to_arrow_schema ids cols, match fs with Ok l => arrow_to_orso_schema l | Raise e => Raise e end).
 
+Fixpoint built_all (reqs : list (option column)) (cols : list (list N * column)) : bool :=
+  match reqs, cols with
+  | [], [] => true
+  | r :: reqs', ic :: cols' => built_as_asked r (snd ic) && built_all reqs' cols'
+  | _, _ => false
+  end.
+
 Definition c11_check_schema (c : schema_case) : bool :=
-  let '(ids, cols, fs, back) := c in
+  let '(ids, reqs, cols, fs, back) := c in
+  built_all reqs cols &&
   result_eqb (list_eqb afield_eqb) (orso_to_arrow_schema ids cols) fs
   && match fs with Ok l => result_eqb (list_eqb column_eqb) (arrow_to_orso_schema l) back | Raise _ => true end
   && match fs, back with
@@ -514,5 +630,41 @@ Definition c11_check_schema (c : schema_case) : bool :=
      end.
 
 Definition batch_case : Type := list (list cell) * list (list (list cell)).
-Definition o2a_case : Type := column * result afield * result column.
+Definition o2a_case : Type := option column * column * result afield * result column.
 Definition a2o_case : Type := bool * afield * result column.
+
+(* ---------- repeated use of one frame ---------- *)
+(* what was observed for each call: an exported table (its column names, num_rows, its rows read column by column),
+   a row count, or nothing (materialize) *)
+Inductive fobs := ObsTable (names : list (list N)) (nrows : N) (rows : list (list cell)) | ObsCount (n : N) | ObsNone.
+
+Fixpoint all2 {A B : Type} (f : A -> B -> bool) (a : list A) (b : list B) : bool :=
+  match a, b with
+  | [], [] => true
+  | x :: r, y :: t => f x y && all2 f r t
+  | _, _ => false
+  end.
+
+Definition fout_agree (names : list (list N)) (m : fout cell) (o : fobs) : bool :=
+  match m, o with
+  | OutTable cols, ObsTable onames nrows rows =>
+      list_eqb listN_eqb names onames
+      && (N.of_nat (match cols with [] => 0 | c :: _ => length c end) =? nrows)%N
+      && rows_agree (zip_star cols) rows
+  | OutCount n, ObsCount k => (N.of_nat n =? k)%N
+  | OutNone, ObsNone => true
+  | _, _ => false
+  end.
+
+(* (lazily backed?, the tables / the row lists the frame is built over, column names, the calls, what they returned) *)
+Definition frameops_case : Type := bool * list (list (list cell)) * list (list N) * list fop * list fobs.
+
+Definition frame_of (lazy : bool) (tables : list (list (list cell))) : frame cell (list (list cell)) :=
+  if lazy then FLazy (from_arrow_iter tables None) else FList (concat tables).
+
+Definition c11_show_frameops (c : frameops_case) :=
+  let '(lazy, tables, names, ops, obs) := c in frun pt_rows (length names) (frame_of lazy tables) ops.
+
+Definition c11_check_frameops (c : frameops_case) : bool :=
+  let '(lazy, tables, names, ops, obs) := c in
+  all2 (fout_agree names) (frun pt_rows (length names) (frame_of lazy tables) ops) obs.
